@@ -62,7 +62,9 @@ def gen_spec(rng, cls=None, force_nan=None):
     if rng.random() < 0.7:
         kw["nanstop"] = bool(rng.random() < 0.75)
     if rng.random() < 0.4:
-        kw["itstat_options"] = ["display", "display-overwrite", "nodisplay", "custom"][int(rng.integers(4))]
+        kw["itstat_options"] = ["display", "display-overwrite", "nodisplay", "custom", "disp", "disp"][int(rng.integers(6))]
+        if kw["itstat_options"] == "disp":
+            kw["itstat_options"] = f"disp:{int(rng.integers(1, 5))}:{int(rng.integers(2))}:{int(rng.integers(2))}"
     if rng.random() < 0.3:
         kw["maxiter"] = int(rng.integers(0, 5))
     spec["kwargs"] = kw
@@ -275,13 +277,21 @@ def gen_timer_case(rng, max_ops):
     return cfg, calls
 
 
-def timer_oracle(cfg, calls):
+def timer_oracle(cfg, calls, with_keys=False):
     """ideal stop-watch by brute force over the call history.  Returns the list of expected results
     (same encoding as driver_opt.run_timer): the property C15 says Timer must report these."""
     init = cfg["init"]
     existing = [] if init is None else ([init] if isinstance(init, str) else list(init))
     events = {}  # label -> list of (time, op)
     out = []
+    keys = []  # after each call: the labels that exist, in order of first appearance
+
+    def snapshot():
+        seen = []
+        for l in existing:
+            if l not in seen:
+                seen.append(l)
+        keys.append(seen)
 
     def total(lbl, now):
         ev = events.get(lbl, [])
@@ -323,6 +333,7 @@ def timer_oracle(cfg, calls):
                 cur = current(lbl, t) if running(lbl) else None
                 rows.append([lbl, D.fmt_ticks(total(lbl, t) - (cur or 0)), None if cur is None else D.fmt_ticks(cur)])
             out.append(rows)
+            snapshot()
             continue
         if op == "elapsed":
             lbl = cfg["dflt"] if arg is None else arg
@@ -330,6 +341,7 @@ def timer_oracle(cfg, calls):
                 out.append(0 if arg is None else -1)
             else:
                 out.append(total(lbl, t) if c["total"] else current(lbl, t))
+            snapshot()
             continue
         if op == "start":
             ls = [cfg["dflt"]] if arg is None else ([arg] if isinstance(arg, str) else list(arg))
@@ -338,6 +350,7 @@ def timer_oracle(cfg, calls):
                     existing.append(l)
                 events.setdefault(l, []).append((t, "start"))
             out.append(0)
+            snapshot()
             continue
         one = cfg["dflt"] if arg is None else arg
         if isinstance(one, str):
@@ -351,4 +364,5 @@ def timer_oracle(cfg, calls):
                 break
             events.setdefault(l, []).append((t, op))
         out.append(r)
-    return out
+        snapshot()
+    return (out, keys) if with_keys else out
